@@ -137,7 +137,7 @@ def obligations(tier):
         for blocked in (True, False):
             obs.append(Ob('rows1/%s/%s' % (enc, '1014' if blocked else 'vbs'), csv_roundtrip(1, enc, blocked), 600,
                           'one row, any column shape in %s, all lengths/values' % SHAPES20, _funcs))
-    obs.append(Ob('rows2/latin_1/1014', csv_roundtrip(2, 'latin_1', True, shapes=SHAPES20[1:3] if q else None), 1800, 'two rows, any two shapes', _funcs))
+    obs.append(Ob('rows2/latin_1/1014', csv_roundtrip(2, 'latin_1', True, shapes=[SHAPES20[1], SHAPES20[3]] if q else None), 1800, 'two rows, any two shapes', _funcs))
     obs.append(Ob('rows2/cp500/vbs', csv_roundtrip(2, 'cp500', False, shapes=SHAPES20[2:] if q else None), 1800, 'two rows, any two shapes', _funcs))
     obs.append(Ob('rows1-long/latin_1/1014', csv_roundtrip(1, 'latin_1', True, shapes=[['DE2', 'PDS0023', 'PDS0052', 'PDS0148']], pdsmax=992), 1200,
                   'one row with three PDS columns of 1..992 characters each (record up to ~3000 bytes over several blocks)', _funcs))
